@@ -367,9 +367,18 @@ var recConc = vstats.New("TestC17ReplicatorsConcurrent")
 // TestC17ReplicatorsConcurrent: 2..6 callers with overlapping digest sets
 // against one decorator stack, interleaving / failures / cancellations
 // generated.
-func TestC17ReplicatorsConcurrent(outer *testing.T) {
+func TestC17ReplicatorsConcurrent(outer *testing.T) { replicatorsConcurrent(outer, recConc) }
+
+var recConcRace = vstats.New("TestC17ReplicatorsConcurrentRace")
+
+// TestC17ReplicatorsConcurrentRace is the same property; the driver runs it
+// from a -race binary with GOMAXPROCS=8 (thorough tier), so that goroutines
+// which become runnable in the same step really run in parallel.
+func TestC17ReplicatorsConcurrentRace(outer *testing.T) { replicatorsConcurrent(outer, recConcRace) }
+
+func replicatorsConcurrent(outer *testing.T, rec *vstats.Recorder) {
 	rapid.Check(outer, func(t *rapid.T) {
-		c := recConc.Begin()
+		c := rec.Begin()
 		// ---- everything is drawn BEFORE the bubble starts ----
 		kf := digest.KeyWithoutInstance
 		if rapid.Bool().Draw(t, "keyWithInstance") {
